@@ -155,6 +155,9 @@ pub struct SeqRun {
   pub subject_counts_end: Vec<(usize, usize)>,
   pub taps: (u64, u64, u64),
   pub live_tokens: Option<usize>,
+  /// the same count taken after the caller dropped Observable and Subscription but while its
+  /// sources are still alive (the harness's own clones subtracted)
+  pub live_tokens_sources_alive: Option<usize>,
   pub steps_done: Vec<usize>,
 }
 
@@ -199,7 +202,11 @@ pub fn run_seq(spec: &SeqSpec, cfg: RunCfg) -> SeqRun {
   if spec.tokens {
     rec2.token = tok_for_run.clone();
   }
+  let tok_probe = tok_for_run.clone();
+  let alive_cell: Arc<Mutex<Option<usize>>> = Arc::new(Mutex::new(None));
+  let alive_cell2 = alive_cell.clone();
   let res = rt::run(cfg, move || {
+    let alive_cell = alive_cell2;
     let spec = spec2;
     let mut lives: Vec<Live> = Vec::new();
     let mut obs: Vec<Observable<'static, Val>> = Vec::new();
@@ -434,6 +441,16 @@ pub fn run_seq(spec: &SeqSpec, cfg: RunCfg) -> SeqRun {
       drop(sub);
       drop(o);
       drop(ctx);
+      if let Some(t) = &tok_probe {
+        if spec.allow_threads {
+          rt::quiesce();
+        }
+        // clones the harness itself still holds: the master outside the run, this probe, the
+        // recorder, the step closure, one per hot source
+        let n_hot = lives.iter().filter(|l| matches!(l, Live::Hot(_))).count();
+        let own = 4 + n_hot;
+        *alive_cell.lock().unwrap() = Some(Arc::strong_count(&t.0).saturating_sub(own));
+      }
       for l in lives.iter() {
         if let Live::Hot(h) = l {
           h.clear();
@@ -449,6 +466,7 @@ pub fn run_seq(spec: &SeqSpec, cfg: RunCfg) -> SeqRun {
       std::mem::drop((sub, o, ctx, lives, using, step_src));
     }
   });
+  let live_tokens_sources_alive: Option<usize> = *alive_cell.lock().unwrap();
   let live_tokens = if spec.tokens && spec.drop_all {
     // the recorder clone used inside the run is gone; `rec` (no token) and `master` remain
     Some(Arc::strong_count(&master.0) - 1)
@@ -473,6 +491,7 @@ pub fn run_seq(spec: &SeqSpec, cfg: RunCfg) -> SeqRun {
     subject_counts_end: o.subject_counts_end,
     taps: o.taps,
     live_tokens,
+    live_tokens_sources_alive,
     steps_done: o.steps_done,
   }
 }
